@@ -6,6 +6,7 @@ import (
 	"path/filepath"
 	"regexp"
 	"sort"
+	"strconv"
 	"strings"
 
 	"nvharness/lib/gofacts"
@@ -202,13 +203,15 @@ func extract(repo, leanDir string) {
 namespace Nv.Gen.C10
 def cfg : Nv.C10.Cfg := ⟨.%s, .%s, %s⟩
 def facts : Nv.C10.Facts := ⟨%s⟩
+/-- width of Go's int type in the harness build (strconv.IntSize) -/
+def intBits : Nat := %d
 end Nv.Gen.C10
-`, strat, zl, gofacts.LeanBool(mapShort), strings.Join(fs, ", "))
+`, strat, zl, gofacts.LeanBool(mapShort), strings.Join(fs, ", "), strconv.IntSize)
 	if err := gofacts.WriteIfChanged(filepath.Join(leanDir, "Nv/Gen/C10.lean"), out); err != nil {
 		fmt.Fprintln(os.Stderr, err)
 		os.Exit(2)
 	}
-	fmt.Printf("extract C10: ReaderX.Read=%s mapShort=%v ReaderX.ZReadN(0)=%s facts=%s\n", strat, mapShort, zl, strings.Join(fs, ","))
+	fmt.Printf("extract C10: ReaderX.Read=%s mapShort=%v ReaderX.ZReadN(0)=%s facts=%s intBits=%d\n", strat, mapShort, zl, strings.Join(fs, ","), strconv.IntSize)
 }
 
 func dump(repo string) {
